@@ -69,7 +69,7 @@ func checkC07(c c07Case, ctx *vCtx) *vFailure {
 		r := vRunApp(vInvocation{Args: all})
 		ctx.Run(1)
 		if r.Failed {
-			vFault("C07: %v failed on valid input: %s", args, r)
+			vViolate("C07: %v failed on valid input: %s", args, r)
 		}
 		return r
 	}
